@@ -160,6 +160,24 @@ func (e *Engine) verifIntrinsic(name string) Intrinsic {
 			e.setResult(st, c, e.TT.UF(fmt.Sprintf("%s/%d", name, len(s.B)), 0, s.B...))
 			return nil
 		}
+	case "verifB2I":
+		return func(e *Engine, st *State, c ssa.CallInstruction, a []Value) []*State {
+			e.setResult(st, c, e.TT.Ite(a[0].(*Term), e.TT.Const(8, 1), e.TT.Const(8, 0)))
+			return nil
+		}
+	case "verifNativeRule":
+		return func(e *Engine, st *State, c ssa.CallInstruction, a []Value) []*State {
+			i := a[0].(*Term)
+			if i.Op != OpConst {
+				e.fail("verifNativeRule with symbolic index")
+			}
+			h, ok := e.Ctx["native:rule"].(func(e *Engine, st *State, i int) Value)
+			if !ok {
+				e.fail("no native rule provider")
+			}
+			e.setResult(st, c, h(e, st, int(i.SignedVal())))
+			return nil
+		}
 	case "verifKnown":
 		return func(e *Engine, st *State, c ssa.CallInstruction, a []Value) []*State {
 			id := e.concStr(a[0], "verifKnown id")
